@@ -2,7 +2,8 @@
 From Coq Require Import ZArith Lia List.
 From ApolloVerif Require Import Base.Chars Ast.Ast Schema.Model Run.Json Run.JsonLemmas Run.Coerce Run.CoerceProofs
   Run.TypedDoc Run.Prog Run.Execute Run.ExecTop Run.RefExecute Run.ExecKnown Run.ExecProofs Run.ExecRefDefs
-  Run.ExecRefInv Run.ExecRefFuel Run.ExecRefCollect Run.ExecRefTyping Run.ExecRefProp Run.ExecRefSim Run.ExecRefFuelRef.
+  Run.ExecRefInv Run.ExecRefFuel Run.ExecRefCollect Run.ExecRefTyping Run.ExecRefProp Run.ExecRefSim Run.ExecRefFuelRef
+  Run.ExecRefNull Run.ExecTheorems.
 Import ListNotations.
 Local Open Scope nat_scope.
 Local Open Scope list_scope.
@@ -96,4 +97,57 @@ Lemma c26_eq_reference_response : forall s doc values w d vars root impls r log,
 Proof.
   intros s doc values w d vars root impls r log Hp Hwf Hcov Hmg Hacyc H.
   pose proof (c26_eq_reference s doc values w d vars root impls Hp Hwf Hcov Hmg Hacyc) as He. rewrite H in He. now cbn [fst] in He.
+Qed.
+
+(* data = null exactly when, in the reference's result tree, a field error sits below non-null positions only *)
+Lemma c26_data_null_iff : forall s doc values w d vars root impls r log,
+  execute_prepare s doc values = EpReady d vars root impls ->
+  sch_exec_wf s = true -> known_covariant s d = false -> rd_mergeable s d -> rd_acyclic d = true ->
+  execute_request s doc values w = (EoResponse r, log) ->
+  (er_data r = None <-> rt_fields_propagate (ref_root_fields s d vars root w) = true).
+Proof.
+  intros s doc values w d vars root impls r log Hp Hwf Hcov Hmg Hacyc H.
+  pose proof (c26_eq_reference_response _ _ _ _ _ _ _ _ _ _ Hp Hwf Hcov Hmg Hacyc H) as Hr.
+  unfold ref_execute in Hr. rewrite Hp in Hr.
+  destruct (ref_execute_prepared s d vars root w) as [r'|] eqn:E; [|discriminate]. injection Hr as ->.
+  now apply ref_data_null_iff.
+Qed.
+
+(* collect_fields, for an object type whose interfaces are those the schema records *)
+Lemma c26_collect_fields_eq : forall cx otn oimpls fuel1 fuel2 sels v1 groups fields v2,
+  sch_names_unique (ex_schema cx) -> ex_get_object (ex_schema cx) otn = Some oimpls ->
+  ex_collect fuel1 cx otn oimpls sels [] [] = Some (v1, groups) ->
+  rf_flatten fuel2 (ex_schema cx) (ex_frags cx) (ex_vars cx) otn sels [] = Some (fields, v2) ->
+  v2 = v1 /\ to_ref groups = rf_group fields.
+Proof.
+  intros cx otn oimpls fuel1 fuel2 sels v1 groups fields v2 Hu Hg. apply collect_eq_reference.
+  intros c. now apply applies_eq.
+Qed.
+
+Lemma c26_collect_fuel : forall s d vars otn oimpls fields,
+  Forall (fun g => doc_node d g /\ rs_is_field g = true) fields ->
+  (exists v g, ex_collect (ex_cfuel_for d) (ex_cx_for s d vars) otn oimpls (rd_sels d) [] [] = Some (v, g)) /\
+  (exists v g, ex_collect (ex_cfuel_for d) (ex_cx_for s d vars) otn oimpls (flat_map rs_sels fields) [] [] = Some (v, g)).
+Proof.
+  intros s d vars otn oimpls fields Hf. split.
+  - destruct (collect_fuel (ex_cx_for s d vars) otn oimpls (ex_cfuel_for d) (rd_sels d) [] []) as (v & g & E & _); [apply cneed_root|].
+    now exists v, g.
+  - destruct (collect_fuel (ex_cx_for s d vars) otn oimpls (ex_cfuel_for d) (flat_map rs_sels fields) [] []) as (v & g & E & _);
+      [now apply cneed_fields|]. now exists v, g.
+Qed.
+
+(* non-vacuity: the hypotheses hold of the example request of Run/ExecTheorems.v *)
+Lemma c26_hyps_nonvacuous :
+  exists d vars root impls,
+    execute_prepare x_nv_schema x_nv_doc [] = EpReady d vars root impls /\
+    sch_exec_wf x_nv_schema = true /\ known_covariant x_nv_schema d = false /\ rd_alias_consistent d = true /\
+    rd_acyclic d = true /\ rd_mergeable x_nv_schema d /\
+    rt_fields_propagate (ref_root_fields x_nv_schema d vars root x_nv_world) = false.
+Proof.
+  destruct (execute_prepare x_nv_schema x_nv_doc []) as [d vars root impls|o] eqn:E; [|vm_compute in E; discriminate].
+  exists d, vars, root, impls. vm_compute in E. injection E as <- <- <- <-.
+  split; [reflexivity|]. split; [vm_compute; reflexivity|]. split; [vm_compute; reflexivity|].
+  split; [vm_compute; reflexivity|]. split; [vm_compute; reflexivity|]. split.
+  - apply alias_consistent_mergeable; vm_compute; reflexivity.
+  - vm_compute. reflexivity.
 Qed.
